@@ -291,7 +291,7 @@ REQUIRED_COUNTERS = [
     # the regression corpus of every driver that has one was read (corpus/C13/{model,names,blob}.txt)
     "corpus_model", "corpus_names", "corpus_blob",
     # the real HTTP handlers over a scratch store with decoys outside
-    "handler_requests", "handler_names_valid", "handler_names_invalid", "handler_found", "handler_blob_found", "handler_fs_changes",
+    "handler_requests", "handler_names_valid", "handler_names_invalid", "handler_found", "handler_blob_found", "handler_fs_changes", "registry_handler_calls", "registry_unlinked",
     # directed families
     "fold_family", "fold_direct", "utf8_names", "utf8_sample_2byte", "utf8_sample_3byte", "utf8_sample_4byte",
 ]
